@@ -20,9 +20,21 @@ class Result:
         self.violations = []      # (replay_path, nofail)
         self.notes = []
         self.nrep = 0
+        self.known = 0
 
     def replay(self, obj, nofail=False):
         obj = dict(obj, property=self.pid, tier=self.tier, seed=self.seed)
+        # genuine defects that were recorded rather than repaired (none at present) are reported as
+        # KNOWN-FINDING lines and do not fail the check; matching is by the exact failing input
+        # (`ops`) or, for source-level findings, the exact span list - a different violation of the
+        # same property is still reported
+        for kf in hh.known_findings().get("open", []):
+            if kf.get("property") == self.pid and not nofail and (
+                    (kf.get("ops") is not None and kf.get("ops") == obj.get("ops")) or
+                    (kf.get("spans") is not None and kf.get("spans") == obj.get("spans"))):
+                print(f"KNOWN-FINDING: property={self.pid} {kf.get('what', '')}", flush=True)
+                self.known += 1
+                return None
         p = hh.write_replay(self.pid, self.seed, self.nrep, obj)
         self.nrep += 1
         self.violations.append((p, nofail))
@@ -120,7 +132,7 @@ def spec_oracle(bs, reals, workdir, tag, cfgline):
 
 
 def run_config(res, pid, tier, seed, config, binp, info, workdir, extra_cases=None, gen_override=None, cpu=None,
-               executor=None, label=None):
+               executor=None, label=None, skip_model=False):
     """generate cases for one configuration, execute them on the real code (native runner by default,
     or `executor(cases, tag) -> (outs, crashed)`), on the Lean model, evaluate both verdict layers"""
     label = label or config
@@ -135,7 +147,10 @@ def run_config(res, pid, tier, seed, config, binp, info, workdir, extra_cases=No
     else:
         extra = [f"--cpu={cpu}"] if cpu else []
         reals, crashed = hh.run_real(binp, cases, workdir, tag, extra_args=extra)
-    models, mbad = hh.run_model(cases, workdir, tag, cfgline)
+    if skip_model:
+        models, mbad = list(reals), []      # search mode: only the property's own oracles are evaluated
+    else:
+        models, mbad = hh.run_model(cases, workdir, tag, cfgline)
     return evaluate(res, pid, label, cpu, cfgline, bs, cases, reals, models, crashed, mbad, info, workdir, tag, r)
 
 
@@ -245,6 +260,26 @@ def main(argv):
                     configs_stats.append(run_config(res, pid, tier, seed, c, binp, minfo, workdir, cpu=cpu))
     if special:
         special(res, tier, seed, workdir, configs_stats)
+    # a proof obligation or the correspondence broke but no oracle failed yet: search the implementation
+    # for a concrete input violating the property itself (fresh seeds, oracles only, time-boxed)
+    if res.n_oracle_fail == 0 and (res.corr_pending or res.proof_broken) and pid in P.PROPS:
+        t_search = time.time()
+        tried = 0
+        configs = P.PROPS[pid][tier if tier in ("quick", "thorough") else "quick"]
+        built = hh.build_runners(configs[:2])
+        for it in range(1, 40):
+            if time.time() - t_search > 60 or res.n_oracle_fail:
+                break
+            for c in configs[:2]:
+                binp, _ = built[c]
+                if binp is None:
+                    continue
+                info = hh.runner_info(binp)
+                st = run_config(res, pid, "quick", seed * 7919 + it, c, binp, info, workdir, skip_model=True, label=f"search{it}-{c}")
+                tried += st["cases"]
+                if res.n_oracle_fail:
+                    break
+        res.cov["search_after_break"] = dict(extra_cases=tried, seconds=round(time.time() - t_search, 1), found=bool(res.n_oracle_fail))
     return finish(res, proofs_ok, configs_stats)
 
 
